@@ -35,7 +35,8 @@ claim("C05", "Theorem C05_spine: environment-threaded master theorem for the cap
       "References inside $or/$not/$and_any_order/times: correspondence only. Register-family captures (D5, D15) and captures under "
       "operand-level operators (D13) violate the property: known findings, proved about the model by decide +kernel and replayed on the code.")
 claim("C06", "Theorems C06_rx (language of the compiled $deref = the specification's texts, all 8 field combinations, on any input), "
-      "C06_field, C06_no_field, C06_end_to_end (through the parser's normal form, C09); C06_exact / C06_exact_end_to_end (Properties/C06Exact.lean: "
+      "C06_field, C06_no_field, C06_end_to_end (through the parser's normal form, C09); C06_pipeline (literal $deref operands are inside the master theorem's "
+      "and the YAML front end's fragments: whole operation on a rule file with $deref operands = the specification's verdict); C06_exact / C06_exact_end_to_end (Properties/C06Exact.lean: "
       "the normal form of a printed memory reference is accepted IFF it has exactly the components the pattern names, each equal up to the "
       "optional % / 0x - by unique reading of normal forms, body_unique); C06_scale_without_index_counterexample (finding D17 proved about "
       "the model)." + COMMON, "DESIGN.md 0.2, 7 C06",
